@@ -31,6 +31,18 @@ type Start struct {
 	// NS: how the numbering / footnotes / endnotes parts bind the WordprocessingML namespace:
 	// "" = prefix w (as the library writes), else one of nsSchemes (see nsrewrite.go)
 	NS string `json:"ns,omitempty"`
+	// NoStyles: the package lacks the (optional) styles part or carries one without any style definition:
+	// "" = it has its styles part, "absent" = no word/styles.xml (no content type, no relationship),
+	// "empty" = a zero-length word/styles.xml, "hollow" = <w:styles .../> without children,
+	// "defaults" = a styles part with w:docDefaults only. The body then refers to no style at all.
+	NoStyles string `json:"nostyles,omitempty"`
+	// Minimal: the package of a minimal producer, written by the harness (optional.go): content types,
+	// package relationships and a main part with MinParas plain paragraphs (and a plain table); no numbering,
+	// notes, settings, properties parts; MinRels = it has an (empty) word/_rels/document.xml.rels
+	Minimal  bool `json:"minimal,omitempty"`
+	MinParas int  `json:"minparas,omitempty"`
+	MinTable bool `json:"mintable,omitempty"`
+	MinRels  bool `json:"minrels,omitempty"`
 }
 
 var startListTypes = []document.ListType{document.ListTypeBullet, document.ListTypeNumber, document.ListTypeLowerRoman, document.ListTypeUpperLetter}
@@ -83,6 +95,9 @@ func renameIn(s string, re *regexp.Regexp, m map[string]string) string {
 // before (the package comes from another process) - the caller resets them again before opening.
 func buildStart(s *Start) ([]byte, error) {
 	document.VerifResetGlobals()
+	if s.Minimal {
+		return buildMinimal(s)
+	}
 	d := document.New()
 	if s.Custom {
 		d.GetStyleManager().CreateCustomStyle("StartPara", "start para", style.StyleTypeParagraph, "Normal")
@@ -167,6 +182,15 @@ func buildStart(s *Start) ([]byte, error) {
 			data = []byte(doc)
 		case "word/styles.xml":
 			data = []byte(sty)
+		}
+		if s.NoStyles != "" {
+			// before any re-binding of namespaces: the style references are found by their w: spelling
+			var keep bool
+			if data, keep = withoutStyles(s.NoStyles, n, data); !keep {
+				continue
+			}
+		}
+		switch n {
 		case "word/numbering.xml", "word/footnotes.xml", "word/endnotes.xml":
 			if s.NS != "" {
 				if data, err = reprefix(data, s.NS); err != nil {
@@ -192,7 +216,10 @@ func (s *Start) sig() string {
 	if s == nil {
 		return "new"
 	}
-	return fmt.Sprintf("start(%s,strip=%v,h=%d,c=%v,q=%v,l=%d,f=%d,e=%d,ns=%s)", s.Scheme, s.Strip, len(s.Headings), s.Custom, s.Quote, s.Lists, s.Footnotes, s.Endnotes, s.NS)
+	if s.Minimal {
+		return fmt.Sprintf("start(minimal,p=%d,t=%v,rels=%v,styles=%s)", s.MinParas, s.MinTable, s.MinRels, s.NoStyles)
+	}
+	return fmt.Sprintf("start(%s,strip=%v,h=%d,c=%v,q=%v,l=%d,f=%d,e=%d,ns=%s,styles=%s)", s.Scheme, s.Strip, len(s.Headings), s.Custom, s.Quote, s.Lists, s.Footnotes, s.Endnotes, s.NS, s.NoStyles)
 }
 
 func hasPrefixAny(s string, p ...string) bool {
